@@ -218,6 +218,95 @@ func ordOwn(w *World, r *EngineResult) {
 	}
 	r.Stats["preload_loop_calls"] = nB
 	r.floor("preload_loop_calls", 1)
+
+	// (c) every round runs on the preloaded files as on the target: in the function that
+	// iterates over the rounds, neither the call that analyses the preloaded files nor the call
+	// that analyses the target is conditioned on the round at hand. The call points, define
+	// infos and signatures of a file are recorded in the reporting round only: skipping that
+	// round for preloaded files loses every call site located in them.
+	analyses := map[*ssa.Function]bool{loop: true}
+	if n := cg.Nodes[loop]; n != nil {
+		for _, in := range n.In {
+			if c := in.Caller.Func; c != nil && pkgShort(c) == "main" {
+				// a wrapper that runs the loop for every preloaded file
+				analyses[c] = true
+			}
+		}
+	}
+	nC := 0
+	for _, fn := range w.Funcs {
+		if pkgShort(fn) != "main" {
+			continue
+		}
+		for _, l := range findLoops(fn) {
+			if !isRangeLoop(l) {
+				continue
+			}
+			// the loop variable: element of the slice returned by a function of package context
+			overRounds := false
+			var elems []ssa.Value
+			for b := range l.body {
+				for _, ins := range b.Instrs {
+					if ia, ok := ins.(*ssa.IndexAddr); ok {
+						if c, ok := ia.X.(*ssa.Call); ok {
+							if cal := c.Call.StaticCallee(); cal != nil && pkgShort(cal) == "context" {
+								overRounds = true
+								for _, ref := range *ia.Referrers() {
+									if ld, ok := ref.(*ssa.UnOp); ok {
+										elems = append(elems, ld)
+									}
+								}
+							}
+						}
+					}
+				}
+			}
+			if !overRounds {
+				continue
+			}
+			isRoundTest := func(cond ssa.Value) bool {
+				bo, ok := cond.(*ssa.BinOp)
+				if !ok {
+					return false
+				}
+				for _, e := range elems {
+					if bo.X == e || bo.Y == e {
+						return true
+					}
+				}
+				return false
+			}
+			for b := range l.body {
+				for _, ins := range b.Instrs {
+					c, ok := ins.(*ssa.Call)
+					if !ok {
+						continue
+					}
+					cal := c.Call.StaticCallee()
+					if cal == nil || !analyses[cal] || cal == fn {
+						continue
+					}
+					nC++
+					construct := "call of " + cal.Name() + " in the round loop"
+					pos := w.pos(instrPos(c))
+					cond := ""
+					for cur := b; cur != nil && cur.Idom() != nil && l.body[cur.Idom()]; cur = cur.Idom() {
+						d := cur.Idom()
+						if iff, ok := d.Instrs[len(d.Instrs)-1].(*ssa.If); ok && len(cur.Preds) == 1 && isRoundTest(iff.Cond) {
+							cond = w.pos(instrPos(iff))
+						}
+					}
+					if cond == "" {
+						r.holds("ORD-own", fnKey(fn), construct, "runs in every round", pos)
+					} else {
+						r.violated("ORD-own", fnKey(fn), construct, "the call depends on a test of the round at "+cond+": a round is skipped for these files, and what that round records for them (call points, signatures) is missing", pos)
+					}
+				}
+			}
+		}
+	}
+	r.Stats["round_loop_analysis_calls"] = nC
+	r.floor("round_loop_analysis_calls", 2)
 	_ = fmt.Sprint
 }
 
